@@ -157,84 +157,132 @@ func ZZH_C19_HeadingsAndParagraphs() {
 			zzvAssert(st == "Heading"+zzvItoa(w.heading), "a heading maps to the heading style of its level")
 			continue
 		}
-		// run formatting of a paragraph: compare run by run (empty leading run of AddParagraph skipped)
-		var runs []document.Run
+		// run formatting of a paragraph, character by character (how the text is cut into runs
+		// is not part of the property): text, then bold/italic/strike/code of each character
+		type fch struct {
+			c                          string
+			bold, italic, strike, code bool
+		}
+		var got, want []fch
 		for _, r := range p.Runs {
-			if r.Text.Content != "" {
-				runs = append(runs, r)
+			pr := r.Properties
+			f := fch{bold: pr != nil && pr.Bold != nil, italic: pr != nil && pr.Italic != nil, strike: pr != nil && pr.Strike != nil,
+				code: pr != nil && pr.FontFamily != nil && pr.FontFamily.ASCII == "Consolas"}
+			t := r.Text.Content
+			for k := 0; k < len(t); k++ {
+				f.c = t[k : k+1]
+				got = append(got, f)
 			}
 		}
-		zzvAssert(len(runs) == len(w.runs), "every inline element becomes one run")
-		if len(runs) != len(w.runs) {
+		for _, wr := range w.runs {
+			for k := 0; k < len(wr.text); k++ {
+				want = append(want, fch{wr.text[k : k+1], wr.bold, wr.italic, wr.strike, wr.code})
+			}
+		}
+		zzvAssert(len(got) == len(want), "the visible text of every block is kept, in order")
+		if len(got) != len(want) {
 			continue
 		}
-		for j, wr := range w.runs {
-			pr := runs[j].Properties
-			bold := pr != nil && pr.Bold != nil
-			italic := pr != nil && pr.Italic != nil
-			strike := pr != nil && pr.Strike != nil
-			code := pr != nil && pr.FontFamily != nil && pr.FontFamily.ASCII == "Consolas"
-			zzvAssert(runs[j].Text.Content == wr.text, "every inline element keeps its text")
-			zzvAssert(bold == wr.bold && italic == wr.italic, "emphasis maps to italic, strong to bold")
-			zzvAssert(strike == wr.strike, "strike-through maps to strike formatting")
-			zzvAssert(code == wr.code, "a code span maps to the code font")
+		for j := range want {
+			zzvAssert(got[j].c == want[j].c, "the visible text of every block is kept, in order")
+			if want[j].c == " " {
+				continue // the formatting of a blank (soft break) shows nothing
+			}
+			zzvAssert(got[j].bold == want[j].bold && got[j].italic == want[j].italic, "emphasis maps to italic, strong to bold")
+			zzvAssert(got[j].strike == want[j].strike, "strike-through maps to strike formatting")
+			zzvAssert(got[j].code == want[j].code, "a code span maps to the code font")
 		}
 	}
 	zzvReach("rendered")
 }
 
-// Tables keep their dimensions, cell text and column alignment, with or without body rows.
+// Tables keep their dimensions, cell text and column alignment, with or without body rows; a
+// second table of the same document keeps its own.
 func ZZH_C19_Tables() {
 	src := &zzhSrc{}
 	doc := ast.NewDocument()
-	cols := 1 + zzvChoice(2)
-	rows := zzvChoice(zzvBound("body_rows", 2, 3))
 	aligns := []extast.Alignment{extast.AlignLeft, extast.AlignCenter, extast.AlignRight, extast.AlignNone}
-	tbl := extast.NewTable()
-	var al []extast.Alignment
-	for c := 0; c < cols; c++ {
-		al = append(al, aligns[zzvChoice(len(aligns))])
+	type wantTable struct {
+		rows, cols int
+		al         []extast.Alignment
+		texts      [][]string
 	}
-	tbl.Alignments = al
-	texts := [][]string{}
-	mkRow := func(header bool) ast.Node {
-		var row ast.Node
-		if header {
-			row = extast.NewTableHeader(extast.NewTableRow(al))
-		} else {
-			row = extast.NewTableRow(al)
+	var wants []wantTable
+	nt := 1 + zzvChoice(2)
+	for k := 0; k < nt; k++ {
+		cols := 1 + zzvChoice(2)
+		rows := zzvChoice(zzvBound("body_rows", 2, 3))
+		if k > 0 {
+			rows = 1
 		}
-		var ts []string
+		tbl := extast.NewTable()
+		var al []extast.Alignment
 		for c := 0; c < cols; c++ {
-			cell := extast.NewTableCell()
-			cell.Alignment = al[c]
-			t := zzhWordC19(1)
-			cell.AppendChild(cell, ast.NewTextSegment(src.add(t)))
-			row.AppendChild(row, cell)
-			ts = append(ts, t)
+			al = append(al, aligns[zzvChoice(len(aligns))])
 		}
-		texts = append(texts, ts)
-		return row
+		tbl.Alignments = al
+		texts := [][]string{}
+		mkRow := func(header bool) ast.Node {
+			var row ast.Node
+			if header {
+				row = extast.NewTableHeader(extast.NewTableRow(al))
+			} else {
+				row = extast.NewTableRow(al)
+			}
+			var ts []string
+			for c := 0; c < cols; c++ {
+				cell := extast.NewTableCell()
+				cell.Alignment = al[c]
+				t := zzhWordC19(1)
+				cell.AppendChild(cell, ast.NewTextSegment(src.add(t)))
+				row.AppendChild(row, cell)
+				ts = append(ts, t)
+			}
+			texts = append(texts, ts)
+			return row
+		}
+		tbl.AppendChild(tbl, mkRow(true))
+		for i := 0; i < rows; i++ {
+			tbl.AppendChild(tbl, mkRow(false))
+		}
+		doc.AppendChild(doc, tbl)
+		wants = append(wants, wantTable{rows, cols, al, texts})
 	}
-	tbl.AppendChild(tbl, mkRow(true))
-	for i := 0; i < rows; i++ {
-		tbl.AppendChild(tbl, mkRow(false))
-	}
-	doc.AppendChild(doc, tbl)
 	r, d := zzhRenderer(src)
 	zzvAssert(r.Render(doc) == nil, "rendering succeeds")
 	tables := d.Body.GetTables()
-	zzvAssert(len(tables) == 1, "a table becomes one table")
-	if len(tables) != 1 {
+	zzvAssert(len(tables) == len(wants), "a table becomes one table")
+	if len(tables) != len(wants) {
 		return
 	}
-	t := tables[0]
-	zzvAssert(t.GetRowCount() == rows+1 && t.GetColumnCount() == cols, "a table keeps its dimensions")
-	for i := 0; i < rows+1 && i < t.GetRowCount(); i++ {
-		for c := 0; c < cols && c < t.GetColumnCount(); c++ {
-			got, err := t.GetCellText(i, c)
-			zzvAssert(err == nil && got == texts[i][c], "a table keeps its cell text")
+	for k, w := range wants {
+		t := tables[k]
+		zzvAssert(t.GetRowCount() == w.rows+1 && t.GetColumnCount() == w.cols, "a table keeps its dimensions")
+		for i := 0; i < w.rows+1 && i < t.GetRowCount(); i++ {
+			for c := 0; c < w.cols && c < t.GetColumnCount(); c++ {
+				got, err := t.GetCellText(i, c)
+				zzvAssert(err == nil && got == w.texts[i][c], "a table keeps its cell text")
+				if w.rows == 0 {
+					continue // the renderer takes the alignments from the first body row
+				}
+				cell, err := t.GetCell(i, c)
+				just := ""
+				if err == nil && cell != nil && len(cell.Paragraphs) > 0 && cell.Paragraphs[0].Properties != nil && cell.Paragraphs[0].Properties.Justification != nil {
+					just = cell.Paragraphs[0].Properties.Justification.Val
+				}
+				wantJust := "left" // also for columns without an alignment
+				switch w.al[c] {
+				case extast.AlignCenter:
+					wantJust = "center"
+				case extast.AlignRight:
+					wantJust = "right"
+				}
+				zzvAssert(just == wantJust, "every table keeps the alignment of its own columns")
+			}
 		}
+	}
+	if nt == 2 {
+		zzvReach("two tables")
 	}
 	zzvReach("table")
 }
